@@ -2,6 +2,7 @@ package checks
 
 import (
 	"fmt"
+	"sync"
 	"testing"
 	"time"
 
@@ -104,10 +105,11 @@ func TestC12(t *testing.T) {
 	ev := vlib.NewEvidence("C12", "exploration",
 		"random operation histories (length 10..60) over node ids {n1..n4,\"\",x:y}, accounts {A,B,\"\"}, amounts {0,±1,±2^64,±10^30,..}; each history runs on the memory and the badger driver and on an executable model of the documented contract; non-trivial = at least 3 successful mutating operations; distinct = distinct operation sequences")
 	ev.Assume("time classes stay ≥10 s away from the 120 s activity window and ≥30 s from the 15 min nonce window; histories taking >5 s wall are discarded as inconclusive")
-	n := vlib.Scale(1500, 60000)
+	n := vlib.Scale(5000, 150000)
 	alpha := vlib.DefaultAlphabet()
+	var opMu sync.Mutex
 	opCount := map[string]int64{}
-	for i := 0; i < n; i++ {
+	parallelCases(n, 12, func(i int) {
 		r := vlib.Rand("C12", i)
 		length := 10 + r.Intn(51)
 		ops := make([]vlib.StoreOp, length)
@@ -115,28 +117,30 @@ func TestC12(t *testing.T) {
 		for j := range ops {
 			ops[j] = vlib.GenStoreOp(r, alpha)
 			desc += ops[j].String() + ";"
+			opMu.Lock()
 			opCount[ops[j].Op]++
+			opMu.Unlock()
 		}
 		mem, cm, err := vlib.OpenStore(vlib.DriverMemory)
 		if err != nil {
-			t.Fatal(err)
+			panic(err)
 		}
 		bad, cb, err := vlib.OpenStore(vlib.DriverBadgerMem)
 		if err != nil {
-			t.Fatal(err)
+			panic(err)
 		}
 		steps, nontrivial, conclusive := runStoreHistory(ev, "C12", "C12", i, ops, []string{"memory", "badger"}, []store.Store{mem, bad}, nil)
 		cm()
 		cb()
 		if !conclusive {
 			ev.Inconclusive("time-class")
-			continue
+			return
 		}
 		ev.Case(desc, nontrivial)
 		if i < 2 {
 			ev.Sample(map[string]interface{}{"index": i, "steps": steps})
 		}
-	}
+	})
 	for k, v := range opCount {
 		ev.Count("op:"+k, v)
 	}
